@@ -97,6 +97,17 @@ def run(ctx):
                     cases.append({"id": "f%d" % k, "kind": "c14", "abs": {},
                                   "args": {"kind": kind, "ops": [op("new", True, none, a), o]}})
                     k += 1
+    # longer behaviours straight from the specification (TLC simulation mode)
+    sim = ctx.tlc("Lifecycle", dict(base, MaxOps=10, Fault="none", EmitCases=True), invariants=["EmitCase"], workers=1,
+                  count=False, simulate="num=%d" % (1500 if thorough else 150), depth=12)
+    seen_sim = set()
+    for c in sim.cases:
+        key = core.json.dumps(c, sort_keys=True)
+        if key in seen_sim:
+            continue
+        seen_sim.add(key)
+        cases.append({"id": "m%d" % len(seen_sim), "kind": "c14", "abs": {}, "args": {"kind": c["kind"], "ops": c["ops"]}})
+    ctx.notes["simulated_behaviours"] = len(seen_sim)
     # code -> spec: longer random histories (re-parsing many times, interleaved with everything else)
     for n in range(4000 if thorough else 500):
         kind = ctx.rng.choice(["tract", "plss", "plss"])
@@ -112,7 +123,7 @@ def run(ctx):
     check(ctx, cases)
     ctx.exhaustive = True
     ctx.rule = ("call histories = every behaviour of spec/Lifecycle.tla with %d calls after construction (tract: all; PLSSDesc: "
-                "%s) + every fresh object and fresh object + one committed parse + seeded random histories of 3..18 calls with "
+                "%s) + every fresh object and fresh object + one committed parse + TLC-simulated behaviours of 10 calls + seeded random histories of 3..18 calls with "
                 "immediate re-parses; each call of each history is one validated event; non-trivial = distinct history" % (
                     2, "all" if thorough else "50% sample"))
     ctx.assumptions += ["snapshot = every public attribute listed in DESIGN Appendix B, flag lists as multisets, hashed to 28 bits",
